@@ -380,6 +380,60 @@ def same_definition_part(ctx):
     return n
 
 
+def same_gate_function_part(ctx):
+    """Two cacheable gates built from ONE routing function but routing elsewhere (other targets, other fallback, multi-target or
+    not) never restore each other's decisions: the cached run equals the uncached one."""
+    from hypergraph import Graph, SyncRunner, InMemoryCache, END
+    from hypergraph.nodes import FunctionNode, IfElseNode, RouteNode
+    rng = ctx.rng
+    n = 0
+    for _ in range(ctx.n(30, 400)):
+        names = ["t0", "t1", "t2", "t3"]
+
+        def mk(nm):
+            def f(x):
+                return (nm, x)
+            f.__name__ = "fn_" + nm
+            return FunctionNode(f, name=nm, output_name="o_" + nm)
+        leaves = [mk(nm) for nm in names]
+        kind = rng.choice(["ifelse", "route", "route_fallback"])
+        if kind == "ifelse":
+            def pred(x):
+                return x > 1
+            a, b = rng.sample(names, 2), rng.sample(names, 2)
+            if a == b:
+                b = list(reversed(a))
+            g1 = IfElseNode(pred, when_true=a[0], when_false=a[1], name="g1", cache=True)
+            g2 = IfElseNode(pred, when_true=b[0], when_false=b[1], name="g2", cache=True)
+            desc = {"kind": kind, "g1": a, "g2": b}
+        elif kind == "route":
+            def pick(x):
+                return ["t0", "t1"][x % 2] if x < 3 else END
+            g1 = RouteNode(pick, targets=["t0", "t1", END], name="g1", cache=True)
+            g2 = RouteNode(pick, targets=["t0", "t1", "t2", END], name="g2", cache=True, multi_target=False)
+            desc = {"kind": kind}
+        else:
+            def choose(x):
+                return "t0" if x % 2 else None
+            fb1, fb2 = rng.sample(["t1", "t2", "t3"], 2)
+            g1 = RouteNode(choose, targets=["t0"], fallback=fb1, name="g1", cache=True)
+            g2 = RouteNode(choose, targets=["t0"], fallback=fb2, name="g2", cache=True)
+            desc = {"kind": kind, "fallbacks": [fb1, fb2]}
+        gates = [g1, g2] if rng.random() < 0.5 else [g2, g1]
+        g = Graph(gates + leaves)
+        cached = SyncRunner(cache=InMemoryCache())
+        for _r in range(rng.randint(1, 3)):
+            x = rng.randint(0, 4)
+            got = cached.run(g, {"x": x})
+            want = SyncRunner().run(g, {"x": x})
+            n += 1
+            if (got.status, got.values) != (want.status, want.values):
+                ctx.violation("oracle", f"two cached gates of one routing function ({desc}): cached run returned {sorted(got.values)}, "
+                              f"the uncached run {sorted(want.values)} (a gate restored another gate's decision)",
+                              case={"x": x, **desc})
+    return n
+
+
 def container_part(ctx):
     """An entry is never served for different arguments: arguments that differ only in container type or ordering
     (dict vs list of its items, set vs sorted list, dicts in another insertion order) are different arguments."""
@@ -414,7 +468,7 @@ def run(ctx):
     n1, t1 = lru_part(ctx, batch, N)
     n2, t2 = disk_part(ctx, batch, N)
     n3, t3 = program_part(ctx)
-    n4 = same_definition_part(ctx) + container_part(ctx)
+    n4 = same_definition_part(ctx) + container_part(ctx) + same_gate_function_part(ctx)
     res = batch.run()
     if res["error"]:
         ctx.violation("harness", res["error"])
